@@ -139,7 +139,9 @@ impl ProgressStyle {
     /// You can pass more than three for a more detailed display.
     /// All passed grapheme clusters need to be of equal width.
     pub fn progress_chars(mut self, s: &str) -> Self {
-        self.progress_chars = segment(s);
+        // A tab cannot be a cell of the bar (it would reach the terminal unexpanded): it stands
+        // for a blank
+        self.progress_chars = segment(&s.replace('\t', " "));
         // Format bar will panic with some potentially confusing message, better to panic here
         // with a message explicitly informing of the problem
         assert!(
@@ -271,7 +273,11 @@ impl ProgressStyle {
                                     )
                                 ))
                                 .unwrap(),
-                            "spinner" => buf.push_str(self.current_tick_str(state)),
+                            "spinner" => {
+                                // Tick strings are user text like any other: expand their tabs
+                                let _ = TabRewriter(&mut buf, self.tab_width)
+                                    .write_str(self.current_tick_str(state));
+                            }
                             "wide_msg" => {
                                 wide = Some(WideElement::Message { align });
                                 marker = true;
